@@ -233,6 +233,15 @@ def _writes_through(repo, cls, fn, params, depth=0, memo=None):
                             for k in c.keywords)):
                         findings.append((s, alias[a], 'mutating call .%s'
                                          % c.func.attr))
+                    elif a and isinstance(c.func.value, ast.Name) \
+                            and c.func.attr.startswith(
+                                ('set_', 'fix_', 'enable_')) \
+                            and not alias[a].startswith('the result'):
+                        # the caller's model is reconfigured (the copy that
+                        # is kept is taken later, or not at all)
+                        findings.append((s, alias[a],
+                                         'configuration call .%s'
+                                         % c.func.attr))
             # writes
             if isinstance(s, ast.Assign):
                 for t in s.targets:
